@@ -58,13 +58,15 @@ def snapshot(c):
             'elim': (id(jp) in out) if out is not None else _internal(jp, 'eliminated', False, bool),
             'dism': _internal(jp, 'dismissed', False, bool), 'lim': _internal(jp, 'round_lim', -1, int),
             'cf': _internal(jp, 'consecutive_failures', -1, int), 'p': _internal(jp, '_place', -1, int),
-            'pub': 0 if pub == '' else int(pub),
+            'pub': 0 if pub == '' else -1 if pub in ('DQ', 'DNS') else int(pub),
         }
+        if getattr(jp, 'order', None) in ('DQ', 'DNS'):
+            j[str(jp.bib)]['dq'] = True          # (the field exists for DQ / DNS entries only, see HighJump.tla)
     log = []
     for a, v in c.actions:
         op = _LOGOP.get(a, a)
         if op == 'add':
-            log.append({'op': 'add', 'b': str(v.get('bib')), 'h': 0})
+            log.append({'op': 'addq' if v.get('order') in ('DQ', 'DNS') else 'add', 'b': str(v.get('bib')), 'h': 0})
         elif op == 'bar':
             log.append({'op': 'bar', 'b': '', 'h': cm(v)})
         else:
@@ -106,6 +108,8 @@ def apply(c, call, RuleViolation):
     try:
         if op == 'add':
             c.add_jumper(bib=call['b'])
+        elif op == 'addq':
+            c.add_jumper(bib=call['b'], order='DQ')
         elif op == 'bar':
             c.set_bar_height(dec(call['h']))
         else:
